@@ -2,7 +2,8 @@ import os, sys
 sys.path.insert(0, os.path.dirname(os.path.abspath(__file__)))
 import win, vlib
 
-ASSUME = ["window output buffer never overflows", "single producer", "IDLETIMEOUT unset (idle-timeout firing is not exercised)",
+ASSUME = ["window output buffer never overflows", "single producer",
+          "IDLETIMEOUT: a delivery that the watermark does not justify is accepted only if no row is known to have reached the window during the IDLETIMEOUT before it (wall clock: time before Emit of the last row whose processing was observed, time at sink entry); after such a flush the trace no longer judges lateness",
           "a late row's re-delivery obligation is imposed only when the first delivery was logged before the row was emitted",
           "closure of a window for late rows is judged by the last COMPLETED trigger pass (processed watermark), known from the pwm trace events",
           "far-future rows use now+40h; some runs place event time 20h ahead of the wall clock",
@@ -39,7 +40,8 @@ def run(tier):
                  ("session", dict(size=1, moo=0, al=4, maxts=3, maxev=5, onlylate=True, mc=dict(maxts=4, maxev=5)))]
         sfree = [("session", dict(size=2, moo=1, al=2, keys=2), 300, 50), ("session", dict(size=3, moo=0, al=4, keys=2), 300, 60), ("session", dict(size=2, moo=2, al=1, keys=3), 200, 60), ("session", dict(size=1, moo=1, al=9, keys=2), 300, 60)]
     post = lambda res, rng, vh, scen: win.session_late_stage(res, rng, vh, scen, splan, sfree)
-    return win.run_family("C02", tier, plan, free, ASSUME, extra, post=post)
+    idle = [("tumbling", dict(size=10, moo=2), 6 if tier == "quick" else 60), ("sliding", dict(size=10, slide=5, moo=2), 3 if tier == "quick" else 30)]
+    return win.run_family("C02", tier, plan, free, ASSUME, extra, post=post, idle_plan=idle)
 
 
 if __name__ == "__main__":
